@@ -43,6 +43,15 @@ class Ctx:
     def reserves(self, snap, pi):
         return [int(x) for x in snap['pairs'][pi]['reserves']]
 
+    def pair_decimals(self, pi):
+        out = []
+        for a in self.pairs[pi]['assets']:
+            if 'native' in a:
+                out.append(int(self.case.get('native_decimals', {}).get(a['native'], 6)))
+            else:
+                out.append(int([t['decimals'] for t in self.case['tokens'] if t['name'] == a['token']][0]))
+        return out
+
     def supply(self, snap, pi):
         return int(snap['pairs'][pi]['lp_supply'])
 
@@ -158,6 +167,21 @@ def check_scenario(case, out):
                         attached = a if ('funds' not in st and pidx == oi) else (int(st['funds'].get(keys[pidx], '0')) if isinstance(st.get('funds'), dict) else 0)
                         if attached != priced_amount:
                             v.append(('C09', 'swap named %d of native %s with %d attached and succeeded' % (priced_amount, keys[pidx], attached), k))
+                    # C10: a swap that succeeded with a limit honours it (decimals-normalised amounts; see pair_assert.rs c10_ok_*)
+                    if st.get('max_spread') is not None and r2[pidx] - r[pidx] == priced_amount:
+                        sdec = cx.pair_decimals(pi)
+                        od_, ad_ = sdec[pidx], sdec[oth]
+                        o_ = priced_amount * (10 ** (ad_ - od_) if od_ < ad_ else 1)
+                        sc_ = 10 ** (od_ - ad_) if od_ > ad_ else 1
+                        rt_ = n * sc_
+                        sp_ = int(attrs.get('spread_amount', '0')) * sc_
+                        ms_ = int(st['max_spread'])
+                        if st.get('belief_price') is not None:
+                            p_ = int(st['belief_price'])
+                            if p_ > 0 and o_ * D > p_ and ms_ < D and not rt_ * D * p_ > (o_ * D - p_) * (D - ms_ - 1):
+                                v.append(('C10', 'swap succeeded with belief price %d and max spread %d although return %d (normalised) is not above (offer/p - 1)(1 - s - 1e-18), offer %d' % (p_, ms_, rt_, o_), k))
+                        elif rt_ + sp_ > 0 and not sp_ * D < (ms_ + 1) * (rt_ + sp_):
+                            v.append(('C10', 'swap succeeded with max spread %d although spread/(return+spread) = %d/%d' % (ms_, sp_, rt_ + sp_), k))
                     # C01 / C06 on the actual reserves
                     x, y = r[pidx], r[oth]
                     in_window = window(x, y, priced_amount)
@@ -269,15 +293,16 @@ def junk_denom(rng, key):
 def gen_scenario(rng):
     kind = rng.choice(['nn', 'nt', 'tn', 'tt'])
     dec = rng.choice([(6, 6), (18, 18), (6, 18), (18, 6)])
-    mk = {'n0': {'native': 'uusd'}, 'n1': {'native': 'uaura'}, 't0': {'token': 'A'}, 't1': {'token': 'B'}}
+    n1_denom = rng.choice(['uaura', 'uaura', 'uaura', 'ibc/27394FB092D2ECCD', 'factory/halo1xyz/sub.token-1'])
+    mk = {'n0': {'native': 'uusd'}, 'n1': {'native': n1_denom}, 't0': {'token': 'A'}, 't1': {'token': 'B'}}
     assets = [mk[('n' if kind[0] == 'n' else 't') + '0'], mk[('n' if kind[1] == 'n' else 't') + '1']]
     cr = rng.choice(['3000000000000000', '0', '300000000000000000', '3333333333333333', '30000000000000000'])
     big = str(10 ** 33)
-    natives = {a: dict([('uusd', big), ('uaura', big), ('ujunk', big)] + [(j, big) for k_ in ('uusd', 'uaura') for j in near_denoms(k_)]) for a in ACTORS}
-    natives['admin'] = {'uusd': '10', 'uaura': '10'}
+    natives = {a: dict([('uusd', big), (n1_denom, big), ('ujunk', big)] + [(j, big) for k_ in ('uusd', n1_denom) for j in near_denoms(k_)]) for a in ACTORS}
+    natives['admin'] = {'uusd': '10', n1_denom: '10'}
     tokens = [{'name': 'A', 'decimals': dec[0], 'balances': {a: big for a in ACTORS}}, {'name': 'B', 'decimals': dec[1], 'balances': {a: big for a in ACTORS}}]
     mins = [str(rng.choice([0, 0, 1000])), str(rng.choice([0, 0, 1000]))]
-    case = dict(kind='scenario', natives=natives, tokens=tokens, native_decimals={'uusd': dec[0], 'uaura': dec[1]}, watch=HOLDERS,
+    case = dict(kind='scenario', natives=natives, tokens=tokens, native_decimals={'uusd': dec[0], n1_denom: dec[1]}, watch=HOLDERS,
                 pairs=[dict(assets=assets, commission=cr, whitelist=['alice'], min=mins)], steps=[])
     cls0 = rng.choice(['small', 'mid', 'big', 'huge'])
     cls1 = rng.choice(['small', 'mid', 'big', 'huge'])
@@ -317,6 +342,12 @@ def gen_scenario(rng):
             st = dict(op='swap', pair=0, sender=rng.choice(['bob', 'mallory']), offer_idx=oi, amount=str(amt))
             if rng.random() < 0.3:
                 st['to'] = 'carol'
+            if rng.random() < 0.3:
+                # a spread limit, with or without a belief price around the pool price (raw 10^18 atomics, in raw units of the two assets)
+                st['max_spread'] = str(rng.choice([0, 10 ** 15, 10 ** 16, 10 ** 17, 5 * 10 ** 17, D]))
+                if rng.random() < 0.6 and est[1 - oi] > 0:
+                    pool_price = est[oi] * D // max(1, est[1 - oi])
+                    st['belief_price'] = str(max(1, int(pool_price * rng.choice([0.5, 0.9, 1.0, 1.0, 1.1, 2.0]))))
             is_native = 'native' in assets[oi]
             adv = rng.random()
             if adv < 0.35:
@@ -883,6 +914,10 @@ def gen_pages_scenario(rng):
         steps.append(dict(op='create_pair', sender='admin', assets=[a, b], whitelist=['alice'], min=['0', '0'], commission=None))
     for lim in rng.sample([None, 1, 2, 3, 7, 10, 11, 29, 30, 31, 100], 4):
         steps.append(dict(op='walk_pairs', limit=lim))
+    created = [st_['assets'] for st_ in steps if st_['op'] == 'create_pair']
+    for _ in range(3 if created else 0):
+        # a continuation query with an explicit limit: the cap holds on every page, not only the first
+        steps.append(dict(op='query_pairs', start_after=rng.choice(created), limit=rng.choice([31, 35, 100, 30, 1])))
     return case
 
 
@@ -894,6 +929,11 @@ def check_pages_scenario(case, out):
     for k, (st, res) in enumerate(zip(case['steps'], out['steps'])):
         if st['op'] == 'create_pair' and res['ok']:
             created += 1
+        if st['op'] == 'query_pairs' and res['ok']:
+            lim = st.get('limit')
+            cap = min(lim if lim is not None else 10, 30)
+            if len(res['res']['pairs']) > cap:
+                v.append(('C19', 'continuation page of %d entries with limit %s (cap %d)' % (len(res['res']['pairs']), lim, cap), k))
         if st['op'] != 'walk_pairs':
             continue
         if not res['ok']:
